@@ -14,6 +14,7 @@ mod manisim;
 mod model;
 mod rng;
 mod seq;
+mod tamper;
 mod util;
 
 use std::path::Path;
@@ -27,6 +28,7 @@ pub fn replay_other(engine: &str, text: &str, path: &Path) -> i32 {
     match engine {
         "manisim" => manisim::replay(text, path),
         "bytesim" | "bytesim-log" => bytesim::replay(text, path),
+        "tampersim" => tamper::replay(text, path),
         _ => {
             eprintln!("HARNESS-ERROR: unknown replay engine {engine}");
             2
@@ -57,6 +59,7 @@ fn main() {
         "crash" => crash::cmd_crash(&args),
         "mani" => manisim::cmd_mani(&args),
         "bytes" => bytesim::cmd_bytes(&args),
+        "tamper" => tamper::cmd_tamper(&args),
         "replay" => {
             let p = args.free.first().cloned().unwrap_or_default();
             seq::cmd_replay(Path::new(&p))
